@@ -1,5 +1,461 @@
-//! Engine S2 (placeholder until implemented below)
-use serde_json::Value;
-use vcommon::Recorder;
-pub fn cmd(_prop: &str) -> i32 { 2 }
-pub fn replay(_rec: &mut Recorder, _prop: &str, _case: &Value) -> Result<(), String> { Err("s2 replay not implemented".into()) }
+//! Engine S2: the *unmodified* `common.rs` (allocator loop, `PatchGuard::drop`,
+//! `patch_function`, `inject_asm_code`, `clear_cache`) together with the arch patchers,
+//! compiled on the host against the model-backed `simlibc`.  Memory is real (a lazily
+//! committed low reservation, below 4 GiB so that the 32-bit ARM patcher's `as u32` casts are
+//! faithful), the *layout* is the generated model.
+//!
+//! Decides on the arm64-linux / arm / amd64 code paths: C11 (placement within the finite reach
+//! of AArch64 `B`, clean failure, rejected placements given back), C02 (restore for repeated
+//! installs), C17 (flush covers every write with final content), and that every page a patch
+//! touches was made writable first.
+
+use libc::model::{self, Ev, Fallback, Model};
+use proptest::prelude::*;
+use serde::{Deserialize, Serialize};
+use serde_json::{json, Value};
+use vcommon::decoders::*;
+use vcommon::{arg_value, cases, out_path, run_prop, Recorder};
+
+const REGION_BASE: u64 = 0x0001_0000;
+const REGION_SIZE: u64 = 0x4000_0000 - 0x0001_0000; // up to 1 GiB
+const FAR_BASE: u64 = 0x6000_0000;
+const FAR_PAGES: u64 = 16;
+const WPAGES: i64 = 32768;
+
+#[derive(Serialize, Deserialize, Clone, Copy, Debug, Hash, PartialEq, Eq)]
+pub enum Variant {
+    Arm64,
+    Arm,
+    Amd64,
+}
+
+#[derive(Serialize, Deserialize, Clone, Debug, Hash, PartialEq, Eq)]
+pub enum Occupancy {
+    /// every page free
+    Empty,
+    /// no page free
+    Full,
+    /// only these page offsets (relative to the target's page) are free
+    OnlyFree(Vec<i64>),
+    /// everything free except these page offsets
+    Occupied(Vec<i64>),
+}
+
+#[derive(Serialize, Deserialize, Clone, Debug, Hash, PartialEq, Eq)]
+pub struct S2Case {
+    pub variant: Variant,
+    /// target address (inside the region); bit 0 = Thumb for the Arm variant
+    pub target: u64,
+    pub occupancy: Occupancy,
+    /// 0 far, 1 fail, 2 near(+delta)
+    pub fallback: u8,
+    pub near_delta: i16,
+    pub fake: u64,
+    /// None = function fake, Some(v) = forced boolean
+    pub boolean: Option<bool>,
+    /// install a second fake on the same target before dropping (C02 on the arm paths)
+    pub twice: bool,
+}
+
+#[derive(Clone, Debug, Default)]
+pub struct S2Obs {
+    pub installed: Vec<bool>,
+    pub panics: Vec<String>,
+    pub before: Vec<u8>,
+    pub after_install: Vec<Vec<u8>>,
+    pub after_drop: Vec<u8>,
+    pub live_after_install: Vec<Vec<(u64, usize)>>,
+    pub live_after_drop: Vec<(u64, usize)>,
+    pub log: Vec<Ev>,
+    pub log_marks: Vec<usize>,
+    pub double_unmaps: u64,
+    pub foreign_unmaps: u64,
+    pub writable_pages: Vec<Vec<u64>>,
+    pub around_changed: bool,
+}
+
+fn ensure_region() -> bool {
+    use std::sync::OnceLock;
+    static OK: OnceLock<bool> = OnceLock::new();
+    *OK.get_or_init(|| unsafe {
+        let flags = reallibc::MAP_PRIVATE | reallibc::MAP_ANONYMOUS | reallibc::MAP_NORESERVE | 0x100000;
+        let a = reallibc::mmap(REGION_BASE as *mut _, REGION_SIZE as usize, reallibc::PROT_READ | reallibc::PROT_WRITE, flags, -1, 0);
+        let b = reallibc::mmap(FAR_BASE as *mut _, (FAR_PAGES * 4096) as usize, reallibc::PROT_READ | reallibc::PROT_WRITE, flags, -1, 0);
+        a as u64 == REGION_BASE && b as u64 == FAR_BASE
+    })
+}
+
+#[no_mangle]
+pub unsafe extern "C" fn __clear_cache(start: *mut u8, end: *mut u8) {
+    if model::is_installed() {
+        model::with(|m| m.flush(start as u64, end as u64));
+    }
+}
+
+fn fill(addr: u64, len: usize, salt: u64) {
+    for i in 0..len {
+        unsafe { *((addr + i as u64) as *mut u8) = crate::shim::pattern(salt, addr + i as u64) | 1 };
+    }
+}
+
+fn read(addr: u64, len: usize) -> Vec<u8> {
+    unsafe { std::slice::from_raw_parts(addr as *const u8, len).to_vec() }
+}
+
+macro_rules! runner {
+    ($name:ident, $variant:ident, $patcher_mod:ident, $patcher:ident) => {
+        fn $name(c: &S2Case, entry: u64) -> S2Obs {
+            use crate::$variant::injector_core::common::{FuncPtrInternal, PatchGuard};
+            use crate::$variant::injector_core::patch_trait::PatchTrait;
+            use crate::$variant::injector_core::$patcher_mod::$patcher as P;
+            let mut o = S2Obs::default();
+            let mk = |a: u64| unsafe { FuncPtrInternal::new(std::ptr::NonNull::new(a as usize as *mut ()).unwrap()) };
+            let mut guards: Vec<PatchGuard> = vec![];
+            let n = if c.twice { 2 } else { 1 };
+            o.before = read(entry, 32);
+            for k in 0..n {
+                o.log_marks.push(model::with(|m| m.log.len()));
+                crate::s1::IN_SUT.with(|f| f.set(true));
+                let r = std::panic::catch_unwind(std::panic::AssertUnwindSafe(|| match c.boolean {
+                    Some(v) if k == 0 => <P as PatchTrait>::replace_function_return_boolean(mk(c.target), v),
+                    _ => <P as PatchTrait>::replace_function_with_other_function(mk(c.target), mk(c.fake.wrapping_add(16 * k as u64) | (c.fake & 1))),
+                }));
+                crate::s1::IN_SUT.with(|f| f.set(false));
+                match r {
+                    Ok(g) => {
+                        guards.push(g);
+                        o.installed.push(true);
+                    }
+                    Err(_) => {
+                        o.installed.push(false);
+                        o.panics.push(crate::s1::last_panic());
+                    }
+                }
+                o.after_install.push(read(entry, 32));
+                o.live_after_install.push(model::with(|m| m.live.iter().map(|(a, l)| (*a, *l)).collect()));
+                o.writable_pages.push(model::with(|m| m.writable.iter().copied().collect()));
+            }
+            o.log_marks.push(model::with(|m| m.log.len()));
+            // the injector restores newest first
+            crate::s1::IN_SUT.with(|f| f.set(true));
+            let r = std::panic::catch_unwind(std::panic::AssertUnwindSafe(move || {
+                while let Some(g) = guards.pop() {
+                    drop(g);
+                }
+            }));
+            crate::s1::IN_SUT.with(|f| f.set(false));
+            if r.is_err() {
+                o.panics.push(format!("drop: {}", crate::s1::last_panic()));
+            }
+            o.after_drop = read(entry, 32);
+            model::with(|m| {
+                o.live_after_drop = m.live.iter().map(|(a, l)| (*a, *l)).collect();
+                o.log = m.log.clone();
+                o.double_unmaps = m.double_unmaps;
+                o.foreign_unmaps = m.foreign_unmaps;
+            });
+            o
+        }
+    };
+}
+runner!(run_arm64, s2_arm64_linux, patch_arm64, PatchArm64);
+runner!(run_arm, s2_arm, patch_arm, PatchArm);
+runner!(run_amd64, s2_amd64, patch_amd64, PatchAmd64);
+
+struct RealMem;
+impl Mem for RealMem {
+    fn byte(&self, addr: u64) -> u8 {
+        let in_region = addr >= REGION_BASE && addr < REGION_BASE + REGION_SIZE;
+        let in_far = addr >= FAR_BASE && addr < FAR_BASE + FAR_PAGES * 4096;
+        if in_region || in_far {
+            unsafe { *(addr as *const u8) }
+        } else {
+            0
+        }
+    }
+}
+
+pub fn execute(c: &S2Case) -> Option<S2Obs> {
+    if !ensure_region() {
+        return None;
+    }
+    let entry = if c.variant == Variant::Arm { c.target & !1 } else { c.target };
+    let page = entry & !0xFFF;
+    let mut m = Model::new(REGION_BASE, REGION_SIZE, FAR_BASE, FAR_PAGES);
+    let rel = |p: &i64| -> Option<u64> {
+        let a = page as i64 + p * 4096;
+        if a >= REGION_BASE as i64 && (a as u64) < REGION_BASE + REGION_SIZE && a as u64 != page && a as u64 != page + 4096 {
+            Some(a as u64)
+        } else {
+            None
+        }
+    };
+    match &c.occupancy {
+        Occupancy::Empty => {
+            m.default_free = true;
+        }
+        Occupancy::Full => {
+            m.default_free = false;
+        }
+        Occupancy::OnlyFree(v) => {
+            m.default_free = false;
+            m.free = v.iter().filter_map(rel).collect();
+        }
+        Occupancy::Occupied(v) => {
+            m.default_free = true;
+            m.occupied = v.iter().filter_map(rel).collect();
+        }
+    }
+    // the target's own pages are never free
+    m.occupied.insert(page);
+    m.occupied.insert(page + 4096);
+    m.fallback = match c.fallback % 3 {
+        0 => Fallback::Far,
+        1 => Fallback::Fail,
+        _ => Fallback::Near(c.near_delta as i64),
+    };
+    // text is not writable until mprotect says so
+    m.writable.clear();
+    // filler and neighbourhood stay inside the target's own two pages (never free for mappings)
+    let lo = entry.saturating_sub(32).max(page);
+    fill(lo, (entry - lo) as usize + 96, c.fake ^ c.target);
+    model::install(m);
+    let around_before = (read(lo, (entry - lo) as usize), read(entry + 16, 48));
+    let mut o = match c.variant {
+        Variant::Arm64 => run_arm64(c, entry),
+        Variant::Arm => run_arm(c, entry),
+        Variant::Amd64 => run_amd64(c, entry),
+    };
+    o.around_changed = (read(lo, (entry - lo) as usize), read(entry + 16, 48)) != around_before;
+    model::take();
+    Some(o)
+}
+
+fn occupancy_strategy() -> impl Strategy<Value = Occupancy> {
+    let extreme = prop_oneof![Just(-WPAGES - 1), Just(-WPAGES), Just(-WPAGES + 1), Just(WPAGES - 1), Just(WPAGES), Just(WPAGES + 1)];
+    prop_oneof![
+        2 => Just(Occupancy::Empty),
+        1 => Just(Occupancy::Full),
+        4 => extreme.prop_map(|p| Occupancy::OnlyFree(vec![p])),
+        3 => (-WPAGES - 2..=WPAGES + 2).prop_map(|p| Occupancy::OnlyFree(vec![p])),
+        2 => prop::collection::vec(-WPAGES - 2..=WPAGES + 2, 1..12).prop_map(Occupancy::OnlyFree),
+        2 => prop::collection::vec(-WPAGES..=-WPAGES + 6, 1..6).prop_map(Occupancy::Occupied),
+    ]
+}
+
+pub fn strategy(variants: Vec<Variant>) -> impl Strategy<Value = S2Case> {
+    let target = prop_oneof![
+        3 => (0x0900_0000u64..0x3000_0000, prop_oneof![Just(0u64), Just(0xFFCu64), Just(0xFF8), Just(0xFF4), Just(0x10), 0u64..0x1000]).prop_map(|(p, o)| (p & !0xFFF) | (o & !3)),
+        2 => (0x0002_0000u64..0x0800_0000, prop_oneof![Just(0u64), 0u64..0x1000]).prop_map(|(p, o)| (p & !0xFFF) | (o & !3)),
+    ];
+    (proptest::sample::select(variants), target, occupancy_strategy(), 0u8..3, -8i16..8, any::<u32>(), prop::option::weighted(0.25, any::<bool>()), prop::bool::weighted(0.3), 0u8..3).prop_map(|(variant, target, occupancy, fallback, near_delta, fake, boolean, twice, tb)| {
+        let target = match (variant, tb) {
+            (Variant::Arm, 1) => target | 1,
+            (Variant::Arm, 2) => (target | 2) | 1,
+            (Variant::Amd64, _) => target | (tb as u64), // any byte alignment
+            _ => target,
+        };
+        S2Case { variant, target, occupancy, fallback, near_delta, fake: (fake as u64).max(0x1000) & !2, boolean, twice }
+    })
+}
+
+pub fn check(rec: &mut Recorder, c: &S2Case) -> Result<(), String> {
+    let prop = rec.property.clone();
+    let Some(o) = execute(c) else {
+        rec.inconclusive.push("cannot reserve the low simulation region".into());
+        return Ok(());
+    };
+    let entry = if c.variant == Variant::Arm { c.target & !1 } else { c.target };
+    let vname = format!("{:?}", c.variant).to_lowercase();
+    let sig = |s: &str| format!("{prop}/s2-{vname}/{s}");
+    rec.eval(|| json!({"case": c, "installed": o.installed, "panics": o.panics, "live_after_install": o.live_after_install, "mmap_calls": o.log.iter().filter(|e| matches!(e, Ev::Mmap{..})).count()}));
+    let occ = match &c.occupancy {
+        Occupancy::Empty => "empty".to_string(),
+        Occupancy::Full => "full".to_string(),
+        Occupancy::OnlyFree(v) if v.len() == 1 => format!("one-free{}", if v[0].abs() >= WPAGES - 1 { "/extreme" } else { "" }),
+        Occupancy::OnlyFree(_) => "few-free".to_string(),
+        Occupancy::Occupied(_) => "first-hints-occupied".to_string(),
+    };
+    let clipped = entry < 0x800_0000;
+    rec.class(&format!("{vname}/{occ}/{}{}{}", if o.installed.first() == Some(&true) { "installed" } else { "refused" }, if clipped { "/clipped" } else { "" }, if c.twice { "/twice" } else { "" }));
+    // ---- release discipline (C11 / C12 on these paths)
+    if o.double_unmaps != 0 || o.foreign_unmaps != 0 {
+        return rec.fail(&sig("bad-release"), format!("{} duplicate and {} foreign munmap calls; case {c:?}", o.double_unmaps, o.foreign_unmaps));
+    }
+    let mut expected_live = 0usize;
+    for (k, inst) in o.installed.iter().enumerate() {
+        let needs_jit = c.variant != Variant::Arm;
+        if *inst {
+            if needs_jit {
+                expected_live += 1;
+            }
+            if o.live_after_install[k].len() != expected_live {
+                return rec.fail(&sig("rejected-placement-left-mapped"), format!("after successful installation #{k} {} mappings are outstanding, expected {expected_live}: {:x?}; case {c:?}", o.live_after_install[k].len(), o.live_after_install[k]));
+            }
+        } else {
+            // refused: target untouched by this attempt, nothing new left mapped
+            let prev = if k == 0 { &o.before } else { &o.after_install[k - 1] };
+            if &o.after_install[k] != prev {
+                return rec.fail(&sig("refused-but-target-modified"), format!("installation #{k} panicked ({:?}) after changing the target; case {c:?}", o.panics));
+            }
+            if o.live_after_install[k].len() != expected_live {
+                return rec.fail(&sig("rejected-placement-left-mapped"), format!("installation #{k} panicked ({:?}) and left {} mapping(s) behind (expected {expected_live} live): {:x?}; case {c:?}", o.panics.last(), o.live_after_install[k].len(), o.live_after_install[k]));
+            }
+            rec.count("refused", 1);
+        }
+    }
+    // ---- the entry leads to the kept trampoline, within the reach of the form written
+    let m = RealMem;
+    for (k, inst) in o.installed.iter().enumerate() {
+        if !*inst {
+            continue;
+        }
+        // only the state right after the *last* successful install is still in memory; decode it
+        if k + 1 != o.installed.len() && o.installed[k + 1] {
+            continue;
+        }
+        // re-materialise the bytes as they were after this install
+        let now = read(entry, 32);
+        unsafe { std::ptr::copy_nonoverlapping(o.after_install[k].as_ptr(), entry as *mut u8, 32) };
+        let live: Vec<(u64, usize)> = o.live_after_install[k].clone();
+        let verdict = match c.variant {
+            Variant::Arm64 => {
+                let out = a64_run(&m, entry, 1);
+                match out.hops.first() {
+                    Some(h) if live.iter().any(|(a, l)| *h >= *a && *h < *a + (*l as u64).max(1)) => Ok(()),
+                    other => Err(format!("entry decodes to {other:?} (trace {:?}) which is not inside a mapping the injector kept ({live:x?})", out.trace)),
+                }
+            }
+            Variant::Amd64 => {
+                let out = x86_follow(&m, entry, &[], 1);
+                match out.hops.first() {
+                    Some(h) if live.iter().any(|(a, l)| *h >= *a && *h < *a + (*l as u64).max(1)) => Ok(()),
+                    other => Err(format!("entry decodes to {other:?} (trace {:?}) which is not inside a mapping the injector kept ({live:x?})", out.trace)),
+                }
+            }
+            Variant::Arm => Ok(()), // no trampoline on 32-bit ARM (C16 judges the bytes)
+        };
+        unsafe { std::ptr::copy_nonoverlapping(now.as_ptr(), entry as *mut u8, 32) };
+        if let Err(e) = verdict {
+            return rec.fail(&sig("branch-misses-trampoline"), format!("{e}; case {c:?}"));
+        }
+        // every page the patch touched had been made writable
+        let patch_len = (0..32).rev().find(|i| o.after_install[k][*i] != if k == 0 { o.before[*i] } else { o.after_install[k - 1][*i] }).map(|i| i + 1).unwrap_or(0) as u64;
+        if patch_len > 0 {
+            let first = entry & !0xFFF;
+            let last = (entry + patch_len - 1) & !0xFFF;
+            for p in [first, last] {
+                if !o.writable_pages[k].contains(&p) {
+                    return rec.fail(&sig("page-not-made-writable"), format!("the patch wrote [{entry:#x},+{patch_len}) but page {p:#x} was never passed to mprotect(..WRITE..) (writable pages {:x?}); case {c:?}", o.writable_pages[k]));
+                }
+            }
+        }
+    }
+    // ---- C02 on these paths: bytes back, nothing left mapped
+    if o.after_drop != o.before {
+        return rec.fail(&sig(if c.twice { "not-restored-after-repeated-install" } else { "not-restored" }), format!("after dropping the guards the entry is {:02x?}, originally {:02x?}; case {c:?}", &o.after_drop[..16], &o.before[..16]));
+    }
+    if !o.live_after_drop.is_empty() {
+        return rec.fail(&sig("trampoline-not-released"), format!("after the drop {:x?} still mapped; case {c:?}", o.live_after_drop));
+    }
+    if o.around_changed {
+        return rec.fail(&sig("bytes-around-the-entry-changed"), format!("bytes outside [entry, entry+16) changed; case {c:?}"));
+    }
+    // ---- C17 on these paths: every changed byte lies in a later flush that saw its final value
+    let marks = &o.log_marks;
+    for k in 0..o.installed.len() {
+        if !o.installed[k] {
+            continue;
+        }
+        let prev = if k == 0 { &o.before } else { &o.after_install[k - 1] };
+        let seg = &o.log[marks[k]..marks[k + 1]];
+        for i in 0..32 {
+            if o.after_install[k][i] != prev[i] {
+                let a = entry + i as u64;
+                let ok = seg.iter().any(|e| matches!(e, Ev::Flush { start, end, bytes } if a >= *start && a < *end && bytes.get((a - start) as usize) == Some(&o.after_install[k][i])));
+                if !ok {
+                    return rec.fail(&sig("entry-patch-not-flushed"), format!("install #{k}: byte {a:#x} changed but no flush in between covers it with its final content; flushes {:x?}; case {c:?}", seg.iter().filter_map(|e| if let Ev::Flush { start, end, .. } = e { Some((*start, *end)) } else { None }).collect::<Vec<_>>()));
+                }
+            }
+        }
+    }
+    let last = o.installed.iter().rposition(|x| *x);
+    if let Some(k) = last {
+        let seg = &o.log[*marks.last().unwrap()..];
+        for i in 0..32 {
+            if o.after_drop[i] != o.after_install[k][i] {
+                let a = entry + i as u64;
+                let ok = seg.iter().any(|e| matches!(e, Ev::Flush { start, end, bytes } if a >= *start && a < *end && bytes.get((a - start) as usize) == Some(&o.after_drop[i])));
+                if !ok {
+                    return rec.fail(&sig("restoration-not-flushed"), format!("byte {a:#x} restored but no flush afterwards covers it with its final content; case {c:?}"));
+                }
+            }
+        }
+    }
+    let searched = o.log.iter().filter(|e| matches!(e, Ev::Mmap { .. })).count() > 1;
+    if searched || clipped || c.twice || matches!(&c.occupancy, Occupancy::OnlyFree(v) if v.len() == 1 && v[0].abs() >= WPAGES - 1) {
+        rec.nontrivial(&c);
+    }
+    Ok(())
+}
+
+pub fn cmd(prop: &str) -> i32 {
+    let variants: Vec<Variant> = match arg_value("--variants").as_deref() {
+        Some(s) => s.split(',').filter_map(|v| match v { "arm64" => Some(Variant::Arm64), "arm" => Some(Variant::Arm), "amd64" => Some(Variant::Amd64), _ => None }).collect(),
+        None => vec![Variant::Arm64, Variant::Arm64, Variant::Arm, Variant::Amd64],
+    };
+    let rule = "S2: real common.rs + arch patchers on the host against model-backed libc (real low memory, generated layout): (target incl. below 128 MiB and page-straddling offsets, occupancy {empty, full, one free page at -R-1..R+1 pages incl. the extremes, few free, first hints occupied}, occupied-hint behaviour {far, fail, near}, fake, function/boolean, install once or twice) ; oracle: success => entry decodes into the mapping kept (finite reach of AArch64 B), exactly the kept mappings outstanding, pages written were mprotect'ed writable; panic => target untouched, nothing new left mapped; after dropping newest-first the bytes are original and nothing is mapped; every changed byte was flushed with its final content; non-trivial = a search beyond the first hint, a clipped window, an extreme free page or a repeated install; distinct by case";
+    let mut rec = Recorder::new(prop, "s2", rule);
+    rec.assumptions.push("simlibc model of mmap/munmap/mprotect (hint rounded down as calibrated natively; occupied hint -> far / fail / near); `libc` renamed to the model crate, common.rs itself unmodified".into());
+    crate::s1::quiet_panics();
+    // enumerated extremes first: page-aligned and unaligned targets x every extreme free page
+    'e: for variant in variants.iter().copied().collect::<std::collections::BTreeSet<_>>() {
+        for target in [0x2000_0000u64, 0x2000_0FFC, 0x2000_0804, 0x0400_0000] {
+            for p in [-WPAGES - 1, -WPAGES, -WPAGES + 1, -1, 2, WPAGES - 1, WPAGES, WPAGES + 1] {
+                for twice in [false, true] {
+                    let c = S2Case { variant, target: if variant == Variant::Arm { target & !3 } else { target }, occupancy: Occupancy::OnlyFree(vec![p]), fallback: 0, near_delta: 0, fake: 0x3000_1000, boolean: None, twice };
+                    if let Err(m) = check(&mut rec, &c) {
+                        let sig = m.split(']').next().unwrap_or("").trim_start_matches('[').to_string();
+                        rec.violation(&sig, &m, json!({"S2Case": c}));
+                        break 'e;
+                    }
+                }
+            }
+        }
+    }
+    rec.exhaustive_parts.push("free page at every extreme offset (-R-1, -R, -R+1, R-1, R, R+1 pages) x 4 targets (page-aligned, page-straddling, unaligned, below 128 MiB) x once/twice, per variant".into());
+    if rec.violations.is_empty() {
+        let n = cases(3000, 400_000);
+        let stream = 22 + prop.bytes().fold(0u64, |a, b| a * 31 + b as u64) % 1000;
+        let out = run_prop(stream, n, strategy(variants), |c| {
+            let r = check(&mut rec, c);
+            if r.is_err() {
+                rec.freeze();
+            }
+            r
+        });
+        if let Some((case, msg)) = out.failure {
+            let sig = msg.split(']').next().unwrap_or("").trim_start_matches('[').to_string();
+            rec.unfreeze();
+            rec.violation(&sig, &msg, json!({"S2Case": case}));
+        }
+    }
+    rec.finish(&out_path())
+}
+
+impl PartialOrd for Variant {
+    fn partial_cmp(&self, other: &Self) -> Option<std::cmp::Ordering> {
+        Some(self.cmp(other))
+    }
+}
+impl Ord for Variant {
+    fn cmp(&self, other: &Self) -> std::cmp::Ordering {
+        (*self as u8).cmp(&(*other as u8))
+    }
+}
+
+pub fn replay(rec: &mut Recorder, _prop: &str, case: &Value) -> Result<(), String> {
+    crate::s1::quiet_panics();
+    let c: S2Case = serde_json::from_value(case["S2Case"].clone()).map_err(|e| format!("bad S2Case: {e}"))?;
+    check(rec, &c)
+}
